@@ -13,7 +13,7 @@ Cases ==
   {[kind |-> "name", n |-> n] : n \in Names(K)} \cup
   {[kind |-> "pairs_over", names |-> SetToSeq(Names(KP))]} \cup
   {[kind |-> "strings_over", alphabet |-> SetToSeq(Alphabet), maxlen |-> M]} \cup
-  {[kind |-> "int", i |-> i, style |-> st] : i \in -14..26, st \in {<<"#">>, <<"b">>, <<"x">>, <<"#","#">>, <<"B">>}}
+  {[kind |-> "int", i |-> i, style |-> st] : i \in -14..26, st \in {<<"#">>, <<"b">>, <<"x">>, <<"#","#">>, <<"B">>, <<>>, <<"#","b">>, <<"b","#">>, <<" ">>, <<"b","b">>}}
 VARIABLE done
 Init == done = ndJsonSerialize(IOEnv.OUT, SetToSeq(Cases))
 Next == FALSE /\ done' = done
